@@ -34,4 +34,4 @@ Example c24_nonvacuous :
   lc_st (lcalls (run c24_demo) 0) = Running /\ lwoken (run c24_demo) 0 = false /\
   announced (lc_out (lcalls (run c24_demo) 0)) = [0; 2] /\
   cur_sess (run c24_demo) 0 1 = Some 1 /\ cur_sess (run c24_demo) 2 1 = Some 2.
-Proof. repeat split; reflexivity. Qed.
+Proof. repeat split; vm_compute; reflexivity. Qed.
